@@ -167,7 +167,7 @@ func (sc *Scanner) scanNumber(ch int, buf *bytes.Buffer) error {
 		if !hasvalue {
 			return sc.Error(buf.String(), "illegal hexadecimal number")
 		}
-		return nil
+		return sc.numeralEnd(buf, false)
 	}
 	sc.scanDecimal(ch, buf)
 	if ch != '.' && sc.Peek() == '.' {
@@ -182,9 +182,23 @@ func (sc *Scanner) scanNumber(ch int, buf *bytes.Buffer) error {
 			return sc.Error(buf.String(), "malformed number")
 		}
 		sc.scanDecimal(sc.Next(), buf)
+		return sc.numeralEnd(buf, false)
 	}
 
-	return nil
+	return sc.numeralEnd(buf, true)
+}
+
+// numeralEnd: Lua 5.1 (llex.c, read_numeral) extends a numeral over every alphanumeric character and `_` that
+// follows it (and, before an exponent, over every `.`) and then rejects what is not a number: `3b`, `1then`, `0x1g`,
+// `1..2` are one malformed number each, not a number followed by another token.
+func (sc *Scanner) numeralEnd(buf *bytes.Buffer, dots bool) error {
+	if ch := sc.Peek(); !isIdent(ch, 1) && !(dots && ch == '.') {
+		return nil
+	}
+	for ch := sc.Peek(); isIdent(ch, 1) || ch == '.'; ch = sc.Peek() {
+		writeChar(buf, sc.Next())
+	}
+	return sc.Error(buf.String(), "malformed number")
 }
 
 func (sc *Scanner) scanString(quote int, buf *bytes.Buffer) error {
